@@ -33,7 +33,9 @@ def run_dmrg(ctx, H, psi, two, nsweeps, numiter, tol_split, detail, label):
     dH = monitor.digest(H)
     fn = ptn.calculate_ground_state_local_twosite if two else ptn.calculate_ground_state_local_singlesite
     with monitor.attached('pytenet.minimization._minimize_local_energy', around), monitor.write_protected(H):
-        if two:
+        if numiter == 25 and not tol_split and nsweeps % 2:
+            en = fn(H, psi, nsweeps)                  # documented defaults: numiter_lanczos = 25, tol_split = 0
+        elif two:
             en = fn(H, psi, nsweeps, numiter_lanczos=numiter, tol_split=tol_split) if tol_split else fn(H, psi, nsweeps, numiter_lanczos=numiter)
         else:
             en = fn(H, psi, nsweeps, numiter_lanczos=numiter)
